@@ -24,7 +24,7 @@ func (c *Ctx) lockControls() {
 
 func runC04(c *Ctx) {
 	r := c.R
-	r.Explanation = "Decides the race-freedom clause of C04 as a pairwise consistent-lock-set discipline over every field of Broker, graph and nodeUsage (every write/access pair shares a lock held for writing at the write), immutability after publication of registeredPipeline and linkedNode, confinement of the sync.Map to graphMap's methods, and lock pairing in the root package. It does not decide the linearizability / delivery-count clause (a statement about histories of sync.Map under real interleavings). C04.section: all broker-state accesses of a mutating call lie in one critical section of Broker.lock (check-then-act atomicity)."
+	r.Explanation = "Decides the race-freedom clause of C04 as a pairwise consistent-lock-set discipline over every field of Broker, graph and nodeUsage (every write/access pair shares a lock held for writing at the write), immutability after publication of registeredPipeline and linkedNode, confinement of the sync.Map to graphMap's methods, and lock pairing in the root package. It does not decide the linearizability / delivery-count clause (a statement about histories of sync.Map under real interleavings). C04.section: all broker-state accesses of a mutating call lie in one critical section of Broker.lock (check-then-act atomicity). C04.copy: no second holder of the pipeline set is written outside Broker.lock:W (a reader-side cache can overwrite a newer invalidation)."
 	r.NotDecided = []string{"linearizability of registration for Send and per-pipeline delivery counts", "absence of panics"}
 	c.lockControls()
 
@@ -78,6 +78,7 @@ func runC04(c *Ctx) {
 	c.ruleSingleStore("C04.swap")
 	c.ruleOneSection("C04.section")
 	c.ruleGoCapturedWrites("C04.goroutines")
+	c.rulePipelineCopies("C04.copy")
 
 	c.pairingRule("C04.pairing", func(fn *ssa.Function) bool { return PkgPathOf(fn) == PkgRoot }, false)
 	r.Floor("C04.pairing", 10)
